@@ -1,5 +1,6 @@
 SPECIFICATION Spec
 CONSTANTS FifoCancellable = FALSE
+  WaitCancellable = FALSE
   MaxCancel = 8
   Mode = "mc"
 INVARIANTS TypeOK StuckOnlyIfTrigger
